@@ -1,5 +1,6 @@
 import PysphVerif.Lemmas.Stepper
 import PysphVerif.Lemmas.StepperHist
+import PysphVerif.Lemmas.StepperSession
 import PysphVerif.Gen.Timesteps
 /-!
 # C04 — the compiled integrator performs `one_timestep` exactly as written
@@ -366,6 +367,63 @@ theorem fixed_h_is_irrelevant_to_steps (A : Arith τ) (H : HWorld σ τ) (cfg : 
 
 end History
 
+/-! ## sessions: several integrators compiled one after the other in one process
+
+What survives from one `SPHCompiler.compile()` to the next is the set of
+extension modules already built, keyed by a digest of the WHOLE generated text
+(`Model/StepperSession.lean`); `get_timestep_code` itself reads the text of the
+object's own `one_timestep` and nothing else. -/
+
+open PysphVerif.StepperHist PysphVerif.StepperSession
+
+/-- In EVERY session -- any classes, in any order, whatever their `__module__`
+and `__qualname__` (equal names included), starting from any consistent set of
+modules built earlier -- every class gets the module rendered from ITS OWN
+`one_timestep` text, provided the digest under which built modules are found
+does not identify two different texts. -/
+theorem session_compiles_own_text {κ ρ : Type} [DecidableEq κ] (digest : GenText ρ → κ)
+    (hinj : ∀ a b, digest a = digest b → a = b) (built : Built κ ρ)
+    (hb : Consistent digest built) (cs : List (IClass ρ)) :
+    compileSession digest built cs = cs.map render :=
+  compileSession_eq_map digest hinj cs built hb
+
+/-- ... hence member `i` of any session, over any history of public calls,
+leaves the particles in the state of the literal execution of the `one_timestep`
+written in (or inherited by) ITS class: what was compiled before it in the
+process is irrelevant. -/
+theorem session_member_refines_literal {κ ρ : Type} [DecidableEq κ] (digest : GenText ρ → κ)
+    (hinj : ∀ a b, digest a = digest b → a = b) (built : Built κ ρ)
+    (hb : Consistent digest built) (cs : List (IClass ρ)) (i : Nat) (c : IClass ρ)
+    (m : GenText ρ) (hc : cs[i]? = some c) (hm : (compileSession digest built cs)[i]? = some m)
+    (A : Arith τ) (H : HWorld σ τ) (hH : ∀ p, WorldAligned (H.view p)) (cfg : Cfg)
+    (p0 : PyRegs) (ops : List (Op τ)) (r : Regs τ) (s : σ) :
+    (runHist A H cfg m.body ops { py := p0, regs := r, world := s }).world =
+      literalHist A H cfg c.ownText p0 ops s := by
+  rw [session_compiles_own_text digest hinj built hb, List.getElem?_map, hc] at hm
+  cases hm
+  exact history_refines_literal A H hH cfg c.ownText p0 ops r s
+
+/-- the module a class gets does not depend on the session before it -/
+theorem session_independent_of_earlier_members {κ ρ : Type} [DecidableEq κ]
+    (digest : GenText ρ → κ) (hinj : ∀ a b, digest a = digest b → a = b)
+    (built built' : Built κ ρ) (hb : Consistent digest built) (hb' : Consistent digest built')
+    (pre pre' : List (IClass ρ)) (c : IClass ρ) :
+    (compileSession digest built (pre ++ [c])).getLast? =
+      (compileSession digest built' (pre' ++ [c])).getLast? := by
+  rw [session_compiles_own_text digest hinj built hb,
+    session_compiles_own_text digest hinj built' hb']
+  simp
+
+/-- The hypothesis is about something: remembering the body of `one_timestep`
+per `(cls.__module__, cls.__qualname__)` -- a key that does identify different
+texts -- gives the second of two equally named classes the first one's body. -/
+theorem keying_by_class_name_is_unsound :
+    ∃ c1 c2 : IClass Unit, c1.modName = c2.modName ∧ c1.qualName = c2.qualName ∧
+      (sessionNameKeyed [] [c1, c2]).map GenText.body ≠ [c1.ownText, c2.ownText] := by
+  refine ⟨⟨"m", "make.<locals>.GenIntegrator", [.stage 2, .stage 1], ()⟩,
+    ⟨"m", "make.<locals>.GenIntegrator", [.stage 1, .stage 2], ()⟩, rfl, rfl, ?_⟩
+  simp [sessionNameKeyed, renderNameKeyed, lookupName, render]
+
 /-! ## non-vacuity -/
 
 /-- a concrete run: PEC integrator, two arrays (keyword order `b, a`), `b`
@@ -416,4 +474,17 @@ example :
         world := { events := [], sizes := [("b", 2, 1), ("a", 1, 2)] } }).world.events = [0, 0, 3, 3] := by
   decide +kernel
 
+/-- a session of three classes, two of them with equal names and different
+texts, the third inheriting the text of the first; modules found by the text
+itself (`digest = id`); one module of another text already built -/
+example :
+    (compileSession (κ := GenText Unit) id
+        [({ body := [.stage 3], rest := () }, { body := [.stage 3], rest := () })]
+        [⟨"m", "f.<locals>.I", [.stage 2, .stage 1], ()⟩,
+         ⟨"m", "f.<locals>.I", [.stage 1, .stage 2], ()⟩,
+         ⟨"m", "J", [.stage 2, .stage 1], ()⟩]).map GenText.body =
+      ([[.stage 2, .stage 1], [.stage 1, .stage 2], [.stage 2, .stage 1]] : List (List Cmd)) := by
+  decide
+
 end PysphVerif.C04
+
